@@ -2,6 +2,7 @@ import Driver.PathFn
 import Driver.CoreFn
 import Driver.MemfsFn
 import Driver.MacroFn
+import Driver.StdfsFn
 import Rivia.Model.Conc
 
 open Driver Rivia
@@ -10,11 +11,18 @@ structure Sess where
   st : Memfs.State := Memfs.init
   env : List (Str × Str) := []
   dead : Bool := false
+  std : Option Rivia.Spec.TreeFs.T := none     -- `newstd`: the session runs on the Stdfs model
 
 def handle (sess : Sess) (line : String) : String × Sess :=
   match (line.trimAscii.toString.splitOn " ") with
   | fn :: args =>
-    if fn = "new" ∨ fn = "newvfs" then
+    if fn = "newstd" then
+      match args with
+      | [e] => match envOfArg e with
+        | some env => ("ok new", { st := Memfs.init, env := env, dead := false, std := some Rivia.Stdfs.init })
+        | none => ("bad-op", sess)
+      | _ => ("bad-op", sess)
+    else if fn = "new" ∨ fn = "newvfs" then
       match args with
       | [e] => match envOfArg e with
         | some env => ("ok new", { st := Memfs.init, env := env, dead := false })
@@ -29,6 +37,12 @@ def handle (sess : Sess) (line : String) : String × Sess :=
         | none => ("bad-op", sess)
       | [] => ("bad-op", sess)
     else
+    match sess.std with
+    | some t =>
+      (match stdOp (envLookup sess.env) fn args t with
+       | some (r, t') => (r, { sess with std := some t' })
+       | none => ("bad-op", sess))
+    | none =>
     match pathFn fn args with
     | some r => (r, sess)
     | none => match coreFn fn args with
